@@ -185,6 +185,9 @@ def run_rc11(programs, mode, max_states=30000, max_graphs=6000, timeout=900):
 def verdict_class(term):
     if term.startswith("leak"):
         return "leak"
+    if term == "cellBusy":
+        # "currently reading from / writing to cell": loom's report of an access that overlaps an open section
+        return "causality:busy"
     return term
 
 
